@@ -83,6 +83,7 @@ impl<'a> LTr<'a> {
                 }
             }
             Expr::Lit(ExprLit { lit: Lit::Bool(b), .. }) => Ok((format!("{}", b.value), LTy::Bool)),
+            Expr::Lit(ExprLit { lit: Lit::Char(c), .. }) => Ok((format!("(Char.ofNat {})", c.value() as u32), LTy::Int("Char".into()))),
             Expr::Paren(p) => self.expr(&p.expr),
             Expr::Group(g) => self.expr(&g.expr),
             Expr::Reference(r) => self.expr(&r.expr),
@@ -173,6 +174,19 @@ impl<'a> LTr<'a> {
             Expr::Call(c) => self.call(c),
             Expr::Try(t) => {
                 let (res, ty) = self.expr(&t.expr)?;
+                if let (LTy::Opt(inner), LTy::Opt(_)) = (&ty, &self.sig.ret) {
+                    // `opt?` in a function returning `Option`: `None` is the function's result
+                    let v = self.fresh();
+                    if self.closure && self.loop_ret {
+                        self.emit(format!("let some {v} := {res} | return (Rs.Step.ret none)"));
+                    } else if self.closure {
+                        return Err("`?` inside a loop body".into());
+                    } else {
+                        let e = self.exit("some none");
+                        self.emit(format!("let some {v} := {res} | {e}"));
+                    }
+                    return Ok((v, (**inner).clone()));
+                }
                 let inner = match ty {
                     LTy::Io(t) => *t,
                     _ => return Err("`?` on a value that is not an io::Result".into()),
@@ -397,6 +411,26 @@ impl<'a> LTr<'a> {
             (LTy::Bytes, "is_empty") if args.is_empty() => return Ok((format!("(Rs.isEmpty {recv})"), LTy::Bool)),
             (LTy::Bytes, "into_bytes") if args.is_empty() => return Ok((recv, LTy::Bytes)),
             (LTy::Bytes, "len") if args.is_empty() => return Ok((format!("(Rs.len {recv})"), self.int("UInt64"))),
+            (LTy::Bytes, "contains") if args.len() == 1 => {
+                // `s.contains(c)` with an ASCII `char` literal: in UTF-8 its byte occurs only as that char
+                if let Expr::Lit(ExprLit { lit: Lit::Char(c), .. }) = args[0] {
+                    if (c.value() as u32) < 0x80 {
+                        return Ok((format!("(Rs.Str.containsAscii {recv} {})", c.value() as u32), LTy::Bool));
+                    }
+                }
+                return Err("contains(..) with something other than an ASCII char literal".into());
+            }
+            (LTy::Bytes, "components") if args.is_empty() => {
+                return Ok((format!("(Rs.PathOps.components {recv})"), LTy::List(Box::new(LTy::Ext("Rs.Component".into())))));
+            }
+            (LTy::List(elem), "fold") if args.len() == 2 => {
+                let elem = (**elem).clone();
+                return self.fold(&recv, &elem, args[0], args[1]);
+            }
+            (LTy::Int(_), "saturating_sub") if args.len() == 1 => {
+                let (a, _) = self.expr(args[0])?;
+                return Ok((format!("(Rs.saturatingSub {recv} {a})"), rty.clone()));
+            }
             (LTy::Int(_), "min") | (LTy::Int(_), "max") if args.len() == 1 => {
                 let (a, _) = self.expr(args[0])?;
                 return Ok((format!("({name} {recv} {a})"), rty.clone()));
@@ -601,6 +635,14 @@ impl<'a> LTr<'a> {
                 return self.call_lfn(&format!("Gen.{last}"), s, None, &args);
             }
         }
+        if segs.len() >= 2 && segs[segs.len() - 2] == "Path" && last == "new" && args.len() == 1 {
+            // `Path::new(s)`: the same bytes
+            let (v, t) = self.expr(args[0])?;
+            if t != LTy::Bytes {
+                return Err("Path::new of a non-string".into());
+            }
+            return Ok((v, LTy::Bytes));
+        }
         if segs.len() == 1 && last == "Some" && args.len() == 1 {
             let (v, t) = self.expr(args[0])?;
             return Ok((format!("(some {v})"), LTy::Opt(Box::new(t))));
@@ -663,6 +705,12 @@ impl<'a> LTr<'a> {
 
     /// the function's outcome for `return e` / a tail expression
     fn result_value(&mut self, e: &Expr) -> R<String> {
+        let v = self.ret_value(e)?;
+        Ok(if self.is_io() { v } else { format!("some {v}") })
+    }
+
+    /// the value the function returns (an `IoRes` for a function returning `io::Result`)
+    fn ret_value(&mut self, e: &Expr) -> R<String> {
         if let Expr::Call(c) = e {
             if let Expr::Path(p) = &*c.func {
                 let segs = path_segs(&p.path);
@@ -678,14 +726,17 @@ impl<'a> LTr<'a> {
                 }
             }
         }
-        let (v, t) = self.expr(e)?;
+        self.hint = if self.is_io() { None } else { Some(self.sig.ret.clone()) };
+        let r = self.expr(e);
+        self.hint = None;
+        let (v, t) = r?;
         if self.is_io() {
             match t {
                 LTy::Io(_) => Ok(v),
                 _ => Err("returned value is not an io::Result".into()),
             }
         } else {
-            Ok(format!("some {v}"))
+            Ok(v)
         }
     }
 }
